@@ -6,3 +6,4 @@ import UtapModel.Props.C03Query
 import UtapModel.Props.C18
 import UtapModel.Props.C18Float
 import UtapModel.Gen.PrinterWitness
+import UtapModel.Props.C07Subst
